@@ -90,6 +90,13 @@ def check_fb(case, obs):
                 v('fb-step-too-long', 'covariance rows step from %r to %r > max(time_step=%r, '
                   'gap=%r)' % (a, b, step, gap))
                 break
+    # sensor-estimate tables carry the states of the models that were passed (none for the defaults)
+    for nm_, mod_ in (('gyro', obs.get('gm')), ('accel', obs.get('am'))):
+        want = list(mod_.states) if mod_ is not None else []
+        for suffix in ('', '_sd'):
+            if list(res[nm_ + suffix].columns) != want:
+                v('%s-sensor-table-columns' % 'fb', '%s%s columns %s, model states %s'
+                  % (nm_, suffix, list(res[nm_ + suffix].columns), want))
     # use-once via spy log and innovation tables
     log = obs['log']
     used = [(k, t) for (k, t, ok, nz) in log if ok]
